@@ -13,7 +13,7 @@
 
    Definitions only. *)
 From Coq Require Import List NArith Arith Bool Decimal DecimalNat.
-Require Import Model.Base Model.Ir Gen.SsaKey.
+Require Import Model.Base Model.Ir.
 Import ListNotations.
 
 Notation name := ident.                       (* list N, UTF-8 bytes *)
@@ -304,6 +304,78 @@ Definition join_name (v : vname) : name :=
   end.
 
 (* ------------------------------------------------------------------ *)
+(* control_flow_graph/lifting.rs + intermediate_representation/        *)
+(* declarations.rs: the `Declarations` table of the CFG header         *)
+(* ------------------------------------------------------------------ *)
+
+(* the Declaration statements of a (renamed) body in visit order: the order in
+   which control_flow_graph/lifting.rs::visit_statement reaches them *)
+Fixpoint decl_entries (s : ustmt) : list (name * (loc * dkind)) :=
+  match s with
+  | UBlock ss | UInit ss => flat_map decl_entries ss
+  | UDecl k n l _ => [(n, (l, k))]
+  | USubst _ _ | UExpr _ _ => []
+  | UWhile _ b => decl_entries b
+  | UIf _ t e => decl_entries t ++ match e with Some e0 => decl_entries e0 | None => [] end
+  end.
+
+(* HashMap<VariableName, Declaration>: only inserted into and looked up by key,
+   so an association list in insertion order behaves the same *)
+Definition dtable := list (vname * (loc * dkind)).
+
+Fixpoint tab_find (v : vname) (t : dtable) : option (loc * dkind) :=
+  match t with
+  | [] => None
+  | (w, d) :: r => if vname_eqb v w then Some d else tab_find v r
+  end.
+
+(* Declarations::add_declaration: assert!(self.0.insert(..).is_none()) *)
+Definition site_already_tracked : Z := 1004.
+Definition tab_add (v : vname) (d : loc * dkind) (t : dtable) : outcome dtable :=
+  match tab_find v t with
+  | Some _ => Panic site_already_tracked
+  | None => Ok (t ++ [(v, d)])
+  end.
+
+(* Declarations::get_declaration: self.0.get(&name.without_version()) *)
+Definition get_declaration_of (v : vname) (t : dtable) : option (loc * dkind) :=
+  tab_find (without_version v) t.
+
+(* one add_declaration per Declaration statement, the name lifted by
+   `TryLift for String`; Ok None: InvalidVariableNameError *)
+Fixpoint tab_add_all (es : list (name * (loc * dkind))) (t : dtable) : outcome (option dtable) :=
+  match es with
+  | [] => Ok (Some t)
+  | (n, d) :: r =>
+    match lift_name n with
+    | None => Ok None
+    | Some v =>
+      match tab_add v d t with
+      | Ok t' => tab_add_all r t'
+      | Err e => Err e | Panic s => Panic s | OutOfFuel => OutOfFuel
+      end
+    end
+  end.
+
+(* From<&Parameters> for LiftingEnvironment: VariableName::from_string(p) (no
+   split), type Local, the location of the parameter list *)
+Fixpoint tab_add_params (ps : list name) (ploc : loc) (t : dtable) : outcome dtable :=
+  match ps with
+  | [] => Ok t
+  | p :: r =>
+    match tab_add (vname_plain p) (ploc, KVar) t with
+    | Ok t' => tab_add_params r ploc t'
+    | Err e => Err e | Panic s => Panic s | OutOfFuel => OutOfFuel
+    end
+  end.
+
+Definition build_table (params : list name) (ploc : loc) (body' : ustmt) : outcome (option dtable) :=
+  match tab_add_params params ploc [] with
+  | Ok t => tab_add_all (decl_entries body') t
+  | Err e => Err e | Panic s => Panic s | OutOfFuel => OutOfFuel
+  end.
+
+(* ------------------------------------------------------------------ *)
 (* ssa_impl.rs: the key of the version maps                            *)
 (* ------------------------------------------------------------------ *)
 
@@ -314,14 +386,21 @@ Definition ssa_key_old (v : vname) : list N :=
   | None => vn_name v
   end.
 
-(* Environment::version_key, after the repair.  The two arms of the function
-   are not copied by hand: Gen.SsaKey is regenerated on every run from the text
-   of ssa_impl.rs (lib/props/c10key.py) and lists the pieces each arm
-   concatenates -- currently [KName; KLit "."; KSuffix] and [KName].  A piece
-   the reader did not understand (KOther) renders as nothing; no theorem can be
-   proved about such a key (key_format_ok below is false for it). *)
+(* Environment::version_key, after the repair:
+     match name.suffix() { Some(suffix) => format!("{}.{}", name.name(), suffix),
+                           None => name.name().to_string() }
+   as the list of pieces each arm concatenates.  The function is private, so
+   the key string itself cannot be observed; what the rest of the code depends
+   on is only WHICH variables share a key.  That is observed on every run
+   through into_ssa (identifiers that look like a suffixed or versioned name
+   next to shadowed declarations: a key that identifies two (name, suffix)
+   pairs makes them share a version counter, lib/props/C10.py `ssa_failures`).
+   lib/props/c10key.py additionally reads the two arms from the text of
+   ssa_impl.rs as a LINT outside the proof obligations. *)
+Inductive kpiece := KName | KSuffix | KLit (bytes : list N).
+
 Definition render_key (ps : list kpiece) (n s : list N) : list N :=
-  flat_map (fun p => match p with KName => n | KSuffix => s | KLit b => b | KOther _ => [] end) ps.
+  flat_map (fun p => match p with KName => n | KSuffix => s | KLit b => b end) ps.
 
 Definition ssa_key_with (some none : list kpiece) (v : vname) : list N :=
   match vn_suffix v with
@@ -329,6 +408,8 @@ Definition ssa_key_with (some none : list kpiece) (v : vname) : list N :=
   | None => render_key none (vn_name v) []
   end.
 
+Definition version_key_some : list kpiece := [KName; KLit [dot]; KSuffix].
+Definition version_key_none : list kpiece := [KName].
 Definition ssa_key (v : vname) : list N := ssa_key_with version_key_some version_key_none v.
 
 (* IDENTIFIER of lang.lalrpop: [$_]*[a-zA-Z][a-zA-Z$_0-9]*; what matters
